@@ -122,6 +122,12 @@ def spec_form(eng, name, node, st):
                 tmp.env[k[3:]] = v
         tmp.heap, tmp.alloc, tmp.pc, tmp.ghost = dict(e.heap), dict(e.alloc), st.pc, e.ghost
         return eng.eval(node.args[0], tmp)
+    if name == "visited":
+        # visited(L, v): element v of the set iterated by loop L has been produced by an earlier iteration
+        o = node.args[0].value
+        (ordr, pos, n, it), idx = st.env["__setiter%d__" % o]
+        v = to_z3(eng.eval(node.args[1], st), it.key)
+        return z3.And(it.dom[v], pos(v) < to_z3(st.env[idx]))
     if name in ("forall", "exists"):
         *vars_, body = node.args
         bound = []
@@ -166,6 +172,14 @@ def spec_form(eng, name, node, st):
 def construct(eng, cls, node, st):
     init = eng.reg.ctor_fields.get(cls)
     if init is None:
+        cc = eng.reg.contracts.get(cls + ".__init__")
+        if cc is not None:
+            # a constructor under contract: a fresh object, then __init__'s contract with self bound to it
+            obj = eng.allocate(st, cls)
+            if node.keywords:
+                raise Unsupported("keyword arguments in constructor call of %s" % cls)
+            eng.call_contract(cc, [obj] + [eng.eval(a, st) for a in node.args], st, node)
+            return obj
         raise Unsupported("constructor of %s not modelled" % cls)
     args = [eng.eval(a, st) for a in node.args]
     defaults = eng.reg.ctor_defaults.get(cls, {})
@@ -177,6 +191,9 @@ def construct(eng, cls, node, st):
     obj = eng.allocate(st, cls)
     for fld, v in zip(init, args):
         eng.store_field(st, obj, fld, eng.coerce(v, eng.field_sort(cls, fld), st))
+    gi = eng.reg.ghost_init.get(cls)
+    if gi is not None:
+        gi(eng, st, obj)
     return obj
 
 
@@ -187,6 +204,7 @@ def _args(eng, node, st):
 
 def b_len(eng, node, st):
     (v,) = _args(eng, node, st)
+    eng.need_value(st, v)
     if isinstance(v, VList):
         return v.len
     if isinstance(v, VTuple):
@@ -398,9 +416,15 @@ def b_set(eng, node, st):
     if isinstance(v, VSet):
         return VSet(v.key, v.dom)
     if isinstance(v, VList):
+        eng.need_value(st, v)
         k = z3.Const(fresh_name("k"), v.elem.z3sort())
         i = z3.Int(fresh_name("i"))
-        return VSet(v.elem, z3.Lambda([k], z3.Exists([i], z3.And(i >= 0, i < v.len, v.arr[i] == k))))
+        # the set of the list's elements, skolemised: every element is a member, every member has a witness index
+        dom = z3.Array(fresh_name("setof"), v.elem.z3sort(), z3.BoolSort())
+        wit = z3.Function(fresh_name("setwit"), v.elem.z3sort(), z3.IntSort())
+        st.assume(z3.ForAll([i], z3.Implies(z3.And(i >= 0, i < v.len), dom[v.arr[i]]), patterns=[v.arr[i]]))
+        st.assume(z3.ForAll([k], z3.Implies(dom[k], z3.And(wit(k) >= 0, wit(k) < v.len, v.arr[wit(k)] == k)), patterns=[dom[k]]))
+        return VSet(v.elem, dom)
     raise Unsupported("set() of %r" % (v,))
 
 
